@@ -486,13 +486,46 @@ def _mutation_events(tid0):
                     ev.append({"tid": tid, "ev": "Returned", "fn": name, "same": outs[0] == outs[1]})
                 except skip_exc:
                     pass
+    def scribble_any(o):
+        if isinstance(o, np.ndarray) and o.size and o.flags.writeable:
+            try:
+                o[...] = o * 0 + (np.quaternion(7.0, 1.0, 0.0, 0.0) if o.dtype == np.quaternion else 7)
+            except Exception:
+                pass
+        elif isinstance(o, (tuple, list)):
+            for x in o:
+                scribble_any(x)
+        elif isinstance(o, dict):
+            for x in o.values():
+                scribble_any(x)
     for name, f, args in floats + comp:
         tid += 1
         fa = [a.copy() for a in args]
         before = [sha(a) for a in fa]
         with contextlib.redirect_stdout(io.StringIO()):
-            f(*fa)
+            out_ = f(*fa)
         ev.append({"tid": tid, "ev": "Mutation", "fn": name, "args_unchanged": [sha(a) for a in fa] == before})
+        # the caller works in place on what it was given back: that must not reach the ARGUMENTS (a result that is a view
+        # of its argument), for the float-image helpers and the component-form kernels too
+        scribble_any(out_)
+        tid += 1
+        ev.append({"tid": tid, "ev": "Returned", "fn": name, "same": [sha(a) for a in fa] == before})
+    for name, f, args in tab:
+        tid += 1
+        qa = [q_from_float(a) if a.ndim == 3 else quaternion.as_quat_array(a.copy()) for a in args]
+        qa = [np.array(x) for x in qa]                   # writable, C-ordered
+        before = [sha(a) for a in qa]
+        try:
+            np.random.seed(5)
+            with contextlib.redirect_stdout(io.StringIO()):
+                out_ = f(*qa)
+            scribble_any(out_)
+            # (unfoldings / foldings of a contiguous tensor are numpy views of it on the pinned tree - reshape semantics,
+            # like numpy's own reshape: not judged)
+            if name not in VIEWS_BY_DESIGN:
+                ev.append({"tid": tid, "ev": "Returned", "fn": name, "same": [sha(a) for a in qa] == before})
+        except skip_exc:
+            pass
     # sparse operands
     rng = np.random.default_rng(3)
     F = rng.standard_normal((3, 3, 4)) * (rng.random((3, 3, 1)) < 0.6)
@@ -625,6 +658,7 @@ def _stale_events(tid0):
     return ev
 
 
+VIEWS_BY_DESIGN = ("tensor_unfold(0)", "tensor_unfold(2)", "tensor_unfold", "tensor_fold")
 RANDOMIZED = ("RSP", "Hybrid", "rand_qsvd", "pass_eff", "power_iteration", "CGNE", "DeepLinear", "quat_null", "quat_kernel")     # may draw from the global generator
 
 
